@@ -77,6 +77,28 @@ func init() {
 			f.raw("  (%s, %d, %s)%s\n", r[0], keyIdx[r[1]+"."+r[2]], r[3], sep)
 		}
 		f.raw("]\n")
+		// the harness's own REVIEWED gate table (s_spork_gate.go: the reference of the stream's monitors), printed so that
+		// Props/C17Table.lean can prove it equal to the reviewed table of the model
+		var gk []string
+		for k := range sporkGateTable {
+			gk = append(gk, k)
+		}
+		sort.Strings(gk)
+		f.raw("-- harness/cmd/zvh/s_spork_gate.go sporkGateTable / sporkReceiveGated (the monitors' reference; NOT derived from /repo)\n")
+		f.raw("def harnessGateTable : List (String × Nat) := [")
+		for i, k := range gk {
+			if i > 0 {
+				f.raw(", ")
+			}
+			f.raw("(%q, %d)", k, sporkGateTable[k])
+		}
+		f.raw("]\n")
+		var rg []string
+		for k := range sporkReceiveGated {
+			rg = append(rg, k)
+		}
+		sort.Strings(rg)
+		f.strList("harnessReceiveGated", rg)
 		return f, nil
 	})
 }
